@@ -25,7 +25,14 @@ func VerifTeardown() {
 		verifAssume(nEvents == p)
 	}
 	vWs = &vWsWorld{client: client}
+	if verifParam("upbroken", 0) == 1 && verifChoice("upbroken", 2) == 1 {
+		vWs.upBroken = true
+	}
 	vWs.upScript = func(up *vConn, n int) {
+		if up.reset {
+			<-up.closeCh
+			return
+		}
 		for i := 0; i < nEvents; i++ {
 			if !up.vSend(vServerData("1", map[string]interface{}{"humanChanged": map[string]interface{}{"id": "h1", "name": "n" + verifItoa(i)}})) {
 				return
